@@ -49,3 +49,11 @@ Record node_rules := mkNode {
   n_un_store : aidx * sidx;       (* unary: arg.value_at_location_store_<..> *)
   n_un_rule : rule; n_un_rule_m : rule
 }.
+(* the wrapper classes for an expression combined with a passive scalar (BinaryOpScalarLeft / BinaryOpScalarRight) *)
+Record scalar_node := mkSNode {
+  sn_store : aidx * sidx;         (* child.value_at_location_store_<..> *)
+  sn_value : aidx;                (* child.value_at_location_<..> *)
+  sn_fwd : aidx * sidx;           (* Op::calc_right / calc_left <..> without multiplier *)
+  sn_fwd_m : aidx * sidx;         (* ... with multiplier *)
+  sn_store2 : bool                (* a variant for store_result = 2 (operation_store, second scratch slot) exists *)
+}.
